@@ -82,6 +82,13 @@ def main(c):
             vlib.run_shards(c2, exe, shards, env={'MALLOC_PERTURB_': perturb, 'CQV_NOISE': '2' if tag == 'A' else '5'}, cpu_limit=3000)
             for m in c2.inconclusive:
                 c.fail_harness('writer run %s: %s' % (tag, m))
+            # every 6th table is also written through a pipe (a stream that cannot seek or tell) with the same write history and must
+            # arrive as the same bytes: that verdict of the driver belongs to this property
+            for key, what, rd, n in c2.violations:
+                if key.startswith('stream-writer:'):
+                    c.violation(key, what)
+            if tag == 'A':
+                c.count('tables_also_written_through_a_pipe', c2.observed.get('tables_also_written_through_a_pipe', 0))
             runs[tag] = shards
         # determinism
         ndet = 0
@@ -130,7 +137,7 @@ def main(c):
               'IEEE CRC-32 of stored page bytes, uncompressed sizes, offsets) and the decoded table compared with the model dump. distinct = sha1 of file bytes, rows > 0')
     c.assumptions = ['total_uncompressed_size / total_byte_size accepted as sum of page payloads or payloads+headers', 'codec id 5 accepted as raw LZ4 block or Hadoop framing',
                      'ColumnChunk.file_offset only required to lie inside the file']
-    for k in ('files_validated', 'chunks_with_2plus_pages', 'pages_with_crc', 'files_written_twice_and_compared', 'files_codec_0', 'files_codec_1', 'files_codec_2', 'files_codec_5', 'files_codec_6'):
+    for k in ('tables_also_written_through_a_pipe', 'files_validated', 'chunks_with_2plus_pages', 'pages_with_crc', 'files_written_twice_and_compared', 'files_codec_0', 'files_codec_1', 'files_codec_2', 'files_codec_5', 'files_codec_6'):
         c.require(k)
 
 
